@@ -45,3 +45,307 @@ NOT_APPLICABLE = {
 
 # /repo commits that add guarded hooks (cfg log4rs_verif)
 HOOK_COMMITS = []
+
+PROPS["C03"] = dict(
+    functions=[
+        "log4rs::ConfiguredLogger::log", "log4rs::ConfiguredLogger::enabled", "log4rs::Appender::append",
+        "log4rs::filter::threshold::ThresholdFilter::filter",
+    ],
+    bounds="one logger node; <= 3 appenders x <= 3 filters (instances 2x0, 2x1 with a duplicate attachment, 2x2, 3x3); "
+           "solver variables: logger threshold (6), record level (5), every filter response (3 each) or threshold level (6), "
+           "per-appender failure flag",
+    outside="chains longer than 3, more than 3 appenders; the error loop of <Logger as Log>::log (see C01/C15 R3 harness)",
+    assumptions=[
+        "hook FanOut constructs the private ConfiguredLogger/Appender values directly (no behaviour change)",
+        "stub: std::backtrace::Backtrace::capture -> Backtrace::disabled() (no backtrace in error values)",
+        "stub: <anyhow::Error as Drop>::drop -> no-op (error values leak; their drop glue is not the subject)",
+        "-Z restrict-vtable: dyn calls resolve to implementations of the same trait method only",
+    ],
+    level_text="Bounded model checking of the real fan-out (ConfiguredLogger::log + Appender::append) and ThresholdFilter "
+               "over all joint assignments of filter responses, thresholds, levels and failing appenders for the listed "
+               "shapes; oracle = independent chain interpreter comparing per-appender delivery counts, exactly which "
+               "filters were consulted, and the multiset of returned errors tagged by appender. Isolation follows because "
+               "the per-appender equalities hold for all joint assignments.",
+    level_note="Trusted: Kani/CBMC/CaDiCaL; shapes (number of appenders, chain length, attachment list) are enumerated "
+               "instances, not solver variables.",
+    design_ref="DESIGN.md section 5, C03",
+    harnesses=[
+        H("c03_filters::c03_2x2", timeout=600, mem_gb=6, instance="2 appenders x 2 response filters, attached [0,1]",
+          symbolic="logger level, record level, 4 responses, 2 failure flags", bound="unwind 5"),
+        H("c03_filters::c03_2x2_witness", kind="witness", timeout=600, mem_gb=6),
+        H("c03_filters::c03_2x2_threshold", timeout=600, mem_gb=6, instance="2x2, real ThresholdFilter at (1,0)",
+          symbolic="logger level, record level, threshold level, 3 responses, 2 failure flags", bound="unwind 5"),
+        H("c03_filters::c03_2x1_dup", timeout=600, mem_gb=6, instance="2 appenders x 1 filter, attached [0,1,0]",
+          symbolic="levels, 2 responses, 2 failure flags", bound="unwind 5"),
+        H("c03_filters::c03_2x0", timeout=600, mem_gb=6, instance="2 appenders, no filters, attached [1,0]",
+          symbolic="levels, 2 failure flags", bound="unwind 5"),
+        H("c03_filters::c03_3x3", tier="thorough", timeout=3600, mem_gb=14, instance="3 appenders x 3 response filters",
+          symbolic="levels, 9 responses, 3 failure flags", bound="unwind 6"),
+        H("c03_filters::c03_3x3_threshold", tier="thorough", timeout=3600, mem_gb=14, instance="3x3, ThresholdFilter at (0,1), attached [2,0,1]",
+          symbolic="levels, threshold, 8 responses, 3 failure flags", bound="unwind 6"),
+    ],
+)
+
+# loops that only exist on phantom paths (the bit-packed io::Error repr is not decided during
+# symbolic execution, so every io::Error drop site also explores "custom boxed error", whose
+# candidates include anyhow's error objects with their Backtrace); a bound of 1 keeps them
+# small, and their unwinding assertions are still proved by the solver.
+BT_LOOPS = [(r"drop_glue::<\[std::backtrace::Backtrace(Symbol|Frame)\]>", 0, 1)]
+
+_c07_common = dict(timeout=900, mem_gb=8, unwindset=BT_LOOPS)
+PROPS["C07"] = dict(
+    functions=[
+        "FixedWindowRollerBuilder::build", "<FixedWindowRoller as Roll>::roll", "fixed_window::rotate",
+        "fixed_window::move_file", "Compression::compress (None)", "<DeleteRoller as Roll>::roll",
+        "append::env_util::expand_env_vars (as called by rotate)",
+    ],
+    bounds="(base, count) instances {0,1,3}x{0..4}; pattern kinds: index in file name, in a directory component, repeated, "
+           "with $ENV{D} set/unset; solver variables: existence of every archive name base-1..base+count (gaps, stale "
+           "extras), of a bystander file; 1-3 successive rolls; optional always-failing rename (cross-device fallback)",
+    outside="compression (gzip/zstd are optional features over C libraries), background rotation (threads), "
+            "file contents longer than 1 byte (contents are opaque ids: the roller never reads them except through fs::copy)",
+    assumptions=[
+        "E4 model file system replaces std::fs::{rename,copy,remove_file,create_dir_all} (stubs in harness/src/world.rs): "
+        "rename of a missing source -> NotFound, onto a name whose directory does not exist -> NotFound, replaces the destination",
+        "E6 std::env::var answered from a table",
+        "stub: Backtrace::capture -> disabled; <anyhow::Error as Drop>::drop -> no-op; fault-free harnesses: "
+        "<anyhow::Error as From<io::Error>>::from is cut (roll must not fail on a fault-free disk: asserted)",
+        "hook FixedWindowRoller::verif_new builds the roller value directly (Compression::None); the builder's own "
+        "checks are decided separately by harness c07_build",
+    ],
+    level_text="Bounded model checking of the real roller code over every initial directory state of the window "
+               "(each managed name present or absent) for the listed (base, count, pattern) instances and 1-3 successive "
+               "rolls; oracle = array model of the window compared name by name, plus 'active path gone', 'bystander and "
+               "names outside the window untouched', 'no unregistered path touched'. Counterexamples replay on the real "
+               "file system in a fresh directory.",
+    level_note="Trusted: Kani/CBMC/CaDiCaL; the model file system's rename/copy/remove semantics (stated in assumptions). "
+               "base/count/pattern are enumerated instances; the directory state is the solver's.",
+    design_ref="DESIGN.md section 5, C07",
+    harnesses=[
+        H("c07_window::c07_build", tier="thorough", instance="FixedWindowRollerBuilder::build on 4 pattern shapes", symbolic="pattern shape, base and count over all of u32", bound="unwind 12", timeout=3600, mem_gb=14),
+        H("c07_window::c07_delete", instance="DeleteRoller", symbolic="existence of an unrelated archive", bound="unwind 8", **_c07_common),
+        H("c07_window::c07_file_b0_c0", instance="a.{} base 0 count 0", symbolic="window state, bystander", bound="unwind 8", **_c07_common),
+        H("c07_window::c07_file_b0_c1", instance="a.{} base 0 count 1", symbolic="window state, bystander", bound="unwind 8", **_c07_common),
+        H("c07_window::c07_file_b0_c2", instance="a.{} base 0 count 2", symbolic="window state (3 names), bystander", bound="unwind 8", **_c07_common),
+        H("c07_window::c07_file_b0_c2_witness", kind="witness", **_c07_common),
+        H("c07_window::c07_file_b1_c2", instance="a.{} base 1 count 2", symbolic="window state, name below the window, bystander", bound="unwind 8", **_c07_common),
+        H("c07_window::c07_dir_b0_c2", instance="{}/a base 0 count 2 (index in a directory component)", symbolic="window state, bystander", bound="unwind 8", **_c07_common),
+        H("c07_window::c07_file_b0_c3", tier="thorough", instance="a.{} base 0 count 3", symbolic="window state", bound="unwind 8", **_c07_common),
+        H("c07_window::c07_file_b3_c2", tier="thorough", instance="a.{} base 3 count 2", symbolic="window state", bound="unwind 8", **_c07_common),
+        H("c07_window::c07_file_b0_c2_two_rolls", tier="thorough", instance="a.{} base 0 count 2, 2 successive rolls", symbolic="window state", bound="unwind 8", **_c07_common),
+        H("c07_window::c07_file_b1_c4", tier="thorough", instance="a.{} base 1 count 4", symbolic="window state", bound="unwind 8", **_c07_common),
+        H("c07_window::c07_file_b0_c2_xdev", tier="thorough", instance="a.{} base 0 count 2, rename always fails (copy+remove fallback)", symbolic="window state", bound="unwind 8", **_c07_common),
+        H("c07_window::c07_dir_b1_c3", tier="thorough", instance="{}/a base 1 count 3", symbolic="window state", bound="unwind 8", **_c07_common),
+        H("c07_window::c07_rep_b0_c2", tier="thorough", instance="a.{}.{} base 0 count 2 (repeated placeholder)", symbolic="window state", bound="unwind 10", **_c07_common),
+        H("c07_window::c07_envset_b0_c2", tier="thorough", instance="a$ENV{D}.{} with D=x", symbolic="window state", bound="unwind 16", timeout=3600, mem_gb=14, unwindset=BT_LOOPS),
+        H("c07_window::c07_envunset_b0_c2", tier="thorough", instance="a$ENV{D}.{} with D unset", symbolic="window state", bound="unwind 16", **_c07_common),
+    ],
+)
+
+# recursion bounds for the logger tree (children live on the heap, where the symbolic executor
+# does not propagate constants: without a bound per function the phantom levels multiply)
+def TREE_REC(depth):
+    return [(r"^log4rs::ConfiguredLogger::add$", None, depth + 1),
+            (r"^log4rs::ConfiguredLogger::max_log_level$", None, depth + 1)]
+
+_tree = dict(timeout=1500, mem_gb=10)
+_T_SMALL = "targets a, a::b, a::bc, a::b::c, x, '', 'a:', 'a:::b'"
+_T_CHAIN = "16 targets: a, a::b, a::b::c, a::b::c::x, a::x, a::bx, ax, x::a, '', ':', '::', 'a:', 'a::', 'a:::b', 'a::b:', '::a'"
+_tree_sym = "root level, every declared logger's level, every attached appender id (3 appenders), record level"
+_tree_harnesses = [
+    H("c01_tree::tree_a", instance="declared: a(additive,1 att); root 1 att; " + _T_SMALL, symbolic=_tree_sym, bound="unwind 9, add recursion 2", unwindset=TREE_REC(1), **_tree),
+    H("c01_tree::tree_a_witness", kind="witness", unwindset=TREE_REC(1), **_tree),
+    H("c01_tree::tree_a_na", instance="declared: a(non-additive)", symbolic=_tree_sym, bound="unwind 9", unwindset=TREE_REC(1), **_tree),
+    H("c01_tree::tree_ab", instance="declared: a::b only (implied intermediate a)", symbolic=_tree_sym, bound="unwind 9", unwindset=TREE_REC(2), **_tree),
+    H("c01_tree::tree_a_ab", instance="declared: a, a::b (descend into an existing child)", symbolic=_tree_sym, bound="unwind 9", unwindset=TREE_REC(2), **_tree),
+    H("c01_tree::tree_ana_ab", instance="declared: a(non-additive), a::b(additive): chain broken above", symbolic=_tree_sym, bound="unwind 9", unwindset=TREE_REC(2), **_tree),
+    H("c01_tree::tree_sib", instance="declared: a::b, a::bc(non-additive): textual-not-component prefix", symbolic=_tree_sym, bound="unwind 9", unwindset=TREE_REC(2), **_tree),
+    H("c01_tree::tree_ab_na", tier="thorough", instance="declared: a::b(non-additive); root 2 att", symbolic=_tree_sym, bound="unwind 9", unwindset=TREE_REC(2), **_tree),
+    H("c01_tree::tree_a_ab_na", tier="thorough", instance="declared: a, a::b(non-additive)", symbolic=_tree_sym, bound="unwind 9", unwindset=TREE_REC(2), **_tree),
+    H("c01_tree::tree_a_abc", tier="thorough", instance="declared: a, a::b::c (implied a::b below a declared a)", symbolic=_tree_sym, bound="unwind 9", unwindset=TREE_REC(3), **_tree),
+    H("c01_tree::tree_ana_abc", tier="thorough", instance="declared: a(non-additive), a::b::c (0 att)", symbolic=_tree_sym, bound="unwind 9", unwindset=TREE_REC(3), **_tree),
+    H("c01_tree::tree_lead", tier="thorough", instance="declared: ::a (empty first component); " + _T_CHAIN, symbolic=_tree_sym, bound="unwind 9", unwindset=TREE_REC(2), **_tree),
+    H("c01_tree::tree_a_ba", tier="thorough", instance="declared: a, b::a; root 0 att; " + _T_CHAIN, symbolic=_tree_sym, bound="unwind 9", unwindset=TREE_REC(2), **_tree),
+    H("c01_tree::tree_a_chain_targets", tier="thorough", instance="declared: a; " + _T_CHAIN, symbolic=_tree_sym, bound="unwind 11", unwindset=TREE_REC(1), **_tree),
+    H("c01_tree::tree_3chain", tier="thorough", instance="declared: a, a::b, a::b::c; " + _T_CHAIN, symbolic=_tree_sym, bound="unwind 11", unwindset=TREE_REC(3), timeout=3600, mem_gb=14),
+    H("c01_tree::tree_3chain_mid_na", tier="thorough", instance="declared: a, a::b(non-additive), a::b::c", symbolic=_tree_sym, bound="unwind 11", unwindset=TREE_REC(3), timeout=3600, mem_gb=14),
+    H("c01_tree::tree_3sib", tier="thorough", instance="declared: a::b, a::bc, a::b::c(non-additive, 2 att)", symbolic=_tree_sym, bound="unwind 11", unwindset=TREE_REC(3), timeout=3600, mem_gb=14),
+]
+_tree_assumptions = [
+    "hook Tree wraps the private ConfiguredLogger (no behaviour change); loggers are added in order of name length, as "
+    "SharedLogger::new_with_err_handler does after its sort (the sort + name->index resolution: harness group R3)",
+    "E1: FnvHashMap<String, ConfiguredLogger> is replaced by a fixed-capacity association list (capacity 3 per node) "
+    "with bytewise key comparison; contract relied upon: one value per key, lookup finds it, iteration visits every entry once",
+    "per-function recursion bounds (--unwindset) for add / max_log_level = depth of the instance + 1; their unwinding "
+    "assertions are checked",
+]
+
+PROPS["C01"] = dict(
+    functions=["log4rs::ConfiguredLogger::add", "log4rs::ConfiguredLogger::find", "log4rs::ConfiguredLogger::enabled"],
+    bounds="<= 3 declared loggers, depth <= 3, 3 appenders, <= 2 attachments per logger; tree shape, additive flags, number "
+           "of attachments and the target pool are enumerated instances; levels and attached appender ids are solver variables",
+    outside="free-text targets and names (pools only); more than 3 declared loggers; declaration-order independence of the "
+            "constructor's sort (R3) and delivery through <Logger as Log>::log (fan-out unit: C03)",
+    assumptions=_tree_assumptions,
+    level_text="Bounded model checking of the real tree code (add/find) for a list of tree skeletons (chains, implied "
+               "intermediates, siblings sharing a textual prefix, a leading '::', non-additive loggers at every depth) and a "
+               "pool of targets (matching, partially matching, empty, stray colons); for every instance the solver quantifies over "
+               "all levels and attachment choices; oracle = reference evaluator on hand-written component lists (effective logger "
+               "= longest component-wise prefix; attachments = own + inherited along the unbroken additive chain), compared as "
+               "per-appender hit counts so duplicates and misses both show.",
+    level_note="Trusted: Kani/CBMC/CaDiCaL and the container model E1. Shapes and targets are enumerated, not symbolic "
+               "(symbolic shapes did not fit in memory, DESIGN.md section 2).",
+    design_ref="DESIGN.md section 5, C01",
+    harnesses=_tree_harnesses,
+)
+
+_max = dict(timeout=1500, mem_gb=10)
+PROPS["C02"] = dict(
+    functions=["log4rs::ConfiguredLogger::max_log_level", "log4rs::ConfiguredLogger::find", "log4rs::ConfiguredLogger::enabled",
+               "log4rs::ConfiguredLogger::add"],
+    bounds="same instances as C01 for enabled(); max_log_level on trees with <= 3 declared loggers; all levels symbolic",
+    outside="the history part (init_config / Handle::set_config installing log::set_max_level) and the log! macros: see evidence",
+    assumptions=_tree_assumptions,
+    level_text="Bounded model checking of the real tree code: for every instance and all level assignments enabled(target, level) "
+               "equals 'level passes the effective logger's threshold' (reference on component lists) and max_log_level() equals "
+               "the most verbose level among root and declared loggers.",
+    level_note="Trusted: Kani/CBMC/CaDiCaL and the container model E1. Tree shapes are enumerated instances.",
+    design_ref="DESIGN.md section 5, C02",
+    harnesses=[
+        H("c01_tree::max_a", instance="root + a", symbolic="all levels", bound="unwind 6, recursion 2", unwindset=TREE_REC(1), **_max),
+        H("c01_tree::max_a_witness", kind="witness", unwindset=TREE_REC(1), **_max),
+        H("c01_tree::max_ab", instance="root + a::b (implied a)", symbolic="all levels", bound="unwind 6, recursion 3", unwindset=TREE_REC(2), **_max),
+        H("c01_tree::max_a_ba", instance="root + a + b::a", symbolic="all levels", bound="unwind 6, recursion 3", unwindset=TREE_REC(2), **_max),
+        H("c01_tree::max_a_ab", tier="thorough", instance="root + a + a::b", symbolic="all levels", bound="unwind 6, recursion 3", unwindset=TREE_REC(2), timeout=3600, mem_gb=14),
+        H("c01_tree::max_sib", tier="thorough", instance="root + a::b + a::bc", symbolic="all levels", bound="unwind 8, recursion 3", unwindset=TREE_REC(2), timeout=3600, mem_gb=14),
+        H("c01_tree::max_3chain", tier="thorough", instance="root + a + a::b + a::b::c", symbolic="all levels", bound="unwind 8, recursion 4", unwindset=TREE_REC(3), timeout=3600, mem_gb=14),
+        # enabled() on the routing instances
+        H("c01_tree::tree_a", instance="enabled() on declared: a; " + _T_SMALL, symbolic=_tree_sym, bound="unwind 9", unwindset=TREE_REC(1), **_tree),
+        H("c01_tree::tree_a_ab", instance="enabled() on declared: a, a::b", symbolic=_tree_sym, bound="unwind 9", unwindset=TREE_REC(2), **_tree),
+        H("c01_tree::tree_sib", tier="thorough", instance="enabled() on declared: a::b, a::bc", symbolic=_tree_sym, bound="unwind 9", unwindset=TREE_REC(2), **_tree),
+        H("c01_tree::tree_3chain", tier="thorough", instance="enabled() on declared: a, a::b, a::b::c", symbolic=_tree_sym, bound="unwind 11", unwindset=TREE_REC(3), timeout=3600, mem_gb=14),
+    ],
+)
+
+PROPS["C13"] = dict(
+    functions=["log4rs::config::runtime::check_logger_name"],
+    bounds="names of <= 7 units over the alphabet {a, :} and of <= 4 units over {a, :, 'é' (2 bytes)}: every such string",
+    outside="the builder part (duplicate detection, dangling references, lossy filtering): see evidence / DESIGN.md",
+    assumptions=["hook verif_check_logger_name forwards to the private function",
+                 "the harness builds the &str with from_utf8_unchecked from bytes that are valid UTF-8 by construction"],
+    level_text="Bounded model checking of the real check_logger_name over every string up to the length bound over the "
+               "syntax alphabet (letters and colons, plus a multi-byte letter), against a reference by maximal colon runs.",
+    level_note="Trusted: Kani/CBMC/CaDiCaL. Only the name-validity half of C13 is decided here.",
+    design_ref="DESIGN.md section 5, C13",
+    harnesses=[
+        H("c13_names::names_len5", timeout=900, mem_gb=8, instance="<= 5 bytes over {a,:}", symbolic="length and every byte", bound="unwind 9"),
+        H("c13_names::names_len5_witness", kind="witness", timeout=900, mem_gb=8),
+        H("c13_names::names_len4_multibyte", timeout=900, mem_gb=8, instance="<= 4 units over {a,:,é}", symbolic="length and every unit", bound="unwind 10"),
+        H("c13_names::names_len7", tier="thorough", timeout=3600, mem_gb=12, instance="<= 7 bytes over {a,:}", symbolic="length and every byte", bound="unwind 10"),
+    ],
+)
+
+_t = dict(timeout=900, mem_gb=8)
+_tsym = "the instant (every second of the zone's table year, 2^25 values), the multiplier"
+def _TN(name, inst, tier="quick", **kw):
+    d = dict(_t); d.update(bound="unwind 4"); d.update(kw)
+    return H("c16_time::" + name, tier=tier, instance=inst, symbolic=_tsym, **d)
+
+PROPS["C16"] = dict(
+    functions=["TimeTrigger::get_next_time", "TimeTrigger::local_after", "TimeTrigger::new", "<TimeTrigger as Trigger>::trigger",
+               "chrono calendar arithmetic (NaiveDate/NaiveDateTime/DateTime), executed for real"],
+    bounds="units Second/Minute/Hour/Day; zones UTC, Asia/Kolkata, America/New_York 2024, Europe/Berlin 2024, "
+           "Australia/Lord_Howe 2024, America/Sao_Paulo 2018, America/Havana 2024 (real transition instants); every second of "
+           "the table year as the current instant; multiplier 1..3 as a solver variable and 5, 7, 13, 24, 60, 100 as instances; "
+           "modulate on/off per instance; trigger(): 3 arrivals at symbolic non-decreasing instants",
+    outside="Week/Month/Year units (calendar arithmetic beyond day-of-year; Month/Year results leave the table year), "
+            "max_random_delay > 0 (thread-local RNG), sub-second instants, other zones and years, n = 0 and absurd multipliers",
+    assumptions=[
+        "E5: <Local as TimeZone>::offset_from_{utc,local}_datetime are replaced by a two-transition zone model that mirrors "
+        "chrono 0.4's resolution rules (inclusive overlap ends, first skipped second maps to the old offset) with the real "
+        "transition instants of the tz database; Local::now / Utc::now return the harness instant; natively TZ=<zone> and the "
+        "guarded clock override are used instead",
+        "'wherever the zone's UTC offset does not change in between' is read as: no offset change between the start of the "
+        "current unit and the next boundary (DESIGN.md, C16)",
+    ],
+    level_text="Bounded model checking of the real schedule computation with the current instant as a solver variable over a "
+               "whole year per zone (so every DST gap and overlap second, every unit boundary, leap day and year end of that "
+               "year is covered, not a grid), against an integer reference (no chrono): next > now always; on a unit boundary in "
+               "local time whenever no offset change intervenes; trigger() fires exactly on the first arrival at or after the "
+               "scheduled instant and reschedules strictly into the future; any panic (unwrap on ambiguous/missing local time) "
+               "is a failed check.",
+    level_note="Trusted: Kani/CBMC/CaDiCaL; the zone model E5 (validated natively against the tz database by replay).",
+    design_ref="DESIGN.md section 5, C16",
+    harnesses=[
+        _TN("next_utc_second", "UTC, Second, plain, n in 1..3"),
+        H("c16_time::next_utc_second_witness", kind="witness", **_t),
+        _TN("next_utc_minute_mod", "UTC, Minute, modulate, n in 1..3"),
+        _TN("next_kolkata_hour_mod", "Asia/Kolkata (+5:30), Hour, modulate, n in 1..3"),
+        _TN("next_ny_minute", "America/New_York 2024, Minute, plain, n in 1..3"),
+        _TN("next_ny_hour_mod", "America/New_York 2024, Hour, modulate, n in 1..3"),
+        _TN("next_berlin_day", "Europe/Berlin 2024, Day, plain, n in 1..3"),
+        _TN("next_havana_day", "America/Havana 2024 (switch at local midnight), Day, plain, n in 1..3"),
+        _TN("known_ny_hour_ambiguous", "America/New_York, Hour, +-2 h around the 2024-11-03 overlap (class of the fixed finding)"),
+        _TN("known_havana_day_gap", "America/Havana, Day, +-25 h around the 2024-03-10 midnight gap (class of the fixed finding)"),
+        _TN("trigger_utc_minute", "UTC, Minute: new() + 3 trigger() calls", bound="unwind 5"),
+        _TN("next_kolkata_day", "Asia/Kolkata, Day, plain", tier="thorough"),
+        _TN("next_ny_day_mod", "America/New_York, Day, modulate", tier="thorough"),
+        _TN("next_berlin_second_mod", "Europe/Berlin, Second, modulate", tier="thorough"),
+        _TN("next_lordhowe_hour", "Australia/Lord_Howe (30-minute DST), Hour, plain", tier="thorough"),
+        _TN("next_saopaulo_day_mod", "America/Sao_Paulo 2018 (switch at local midnight, year starts in DST), Day, modulate", tier="thorough"),
+        _TN("next_utc_second_mod_n7", "UTC, Second, modulate, n = 7", tier="thorough"),
+        _TN("next_utc_minute_mod_n13", "UTC, Minute, modulate, n = 13", tier="thorough"),
+        _TN("next_ny_hour_mod_n5", "America/New_York, Hour, modulate, n = 5", tier="thorough"),
+        _TN("next_berlin_hour_n24", "Europe/Berlin, Hour, plain, n = 24", tier="thorough"),
+        _TN("next_kolkata_minute_n60", "Asia/Kolkata, Minute, plain, n = 60", tier="thorough"),
+        _TN("next_ny_day_mod_n100", "America/New_York, Day, modulate, n = 100", tier="thorough"),
+        _TN("trigger_ny_hour_mod", "America/New_York, Hour, modulate: new() + 3 trigger() calls", tier="thorough", bound="unwind 5"),
+    ],
+)
+
+_l = dict(timeout=1200, mem_gb=10)
+def _LS(name, inst, tier="quick", **kw):
+    d = dict(_l); d.update(bound="unwind 8 (sizes) / 10 (intervals)"); d.update(kw)
+    return H("c20_literals::" + name, tier=tier, instance=inst,
+             symbolic="number of digits, every digit, blank before / after the unit, letter-case mask", **d)
+
+PROPS["C20"] = dict(
+    functions=["size::deserialize_limit (visitor: visit_u64 / visit_i64 / visit_str)", "derived SizeTriggerConfig::deserialize",
+               "<TimeTriggerInterval as Deserialize>::deserialize (visitor)", "str::find / trim / parse / eq_ignore_ascii_case (std, executed for real)"],
+    bounds="string scalars '<0-2 or 0-3 digits><blank?><unit><blank?>' with the unit word an instance (every alias of the "
+           "statement plus junk suffixes x, .5kb, kbb, -, secondss) and all letter cases; 20-digit numbers around the overflow "
+           "thresholds of each multiplier with the last two digits free; integer scalars over all of u64 / i64",
+    outside="more than 3 free digits together with a unit; refresh_rate (humantime); leading blanks; YAML/JSON text level",
+    assumptions=["serde's value deserializers (MapDeserializer, forward_to_deserialize_any) drive the real visitors; the "
+                 "error type discards messages (no formatting)"],
+    level_text="Bounded model checking of the real literal parsers: for every unit alias and junk suffix, every digit string up "
+               "to the bound, both blank placements and every letter-case mask the result equals the u128 reference (number x "
+               "multiplier if it fits, else error); overflow thresholds are covered by 20-digit instances with free last digits; "
+               "integer scalar forms are covered over the whole 64-bit range.",
+    level_note="Trusted: Kani/CBMC/CaDiCaL. The unit word is an instance parameter, digits/blanks/case are the solver's.",
+    design_ref="DESIGN.md section 5, C20",
+    harnesses=[
+        H("c20_literals::size_int", instance="integer scalars", symbolic="all u64, all i64", bound="unwind 8", **_l),
+        H("c20_literals::interval_int", instance="integer scalars", symbolic="all u64, all i64", bound="unwind 8", **_l),
+        _LS("size_bare_3", "bare number, <= 3 digits"),
+        _LS("size_kb_2", "unit kb"), H("c20_literals::size_kb_2_witness", kind="witness", **_l),
+        _LS("size_mib_2", "unit mib"), _LS("size_tb_2", "unit tb"), _LS("size_junk_frac", "junk '.5kb'"),
+        _LS("size_thr_kb", "17 fixed digits around 2^64/1024 + 2 free digits + kb", bound="unwind 24"),
+        _LS("interval_bare_3", "bare number, <= 3 digits"), _LS("interval_minutes", "unit minutes"),
+        _LS("interval_week", "unit week"), _LS("interval_junk_secondss", "junk 'secondss'"),
+        _LS("size_b_2", "unit b", tier="thorough"), _LS("size_kib_2", "unit kib", tier="thorough"),
+        _LS("size_mb_2", "unit mb", tier="thorough"), _LS("size_gb_2", "unit gb", tier="thorough"),
+        _LS("size_gib_2", "unit gib", tier="thorough"), _LS("size_tib_2", "unit tib", tier="thorough"),
+        _LS("size_junk_x", "junk 'x'", tier="thorough"), _LS("size_junk_kbb", "junk 'kbb'", tier="thorough"),
+        _LS("size_junk_minus", "junk '-'", tier="thorough"),
+        _LS("size_thr_bare", "18 fixed digits of 2^64 + 2 free digits", tier="thorough", bound="unwind 24"),
+        _LS("size_thr_tb", "6 fixed digits around 2^64/1024^4 + 2 free digits + tb", tier="thorough", bound="unwind 24"),
+        _LS("interval_second", "unit second", tier="thorough"), _LS("interval_seconds", "unit seconds", tier="thorough"),
+        _LS("interval_minute", "unit minute", tier="thorough"), _LS("interval_hour", "unit hour", tier="thorough"),
+        _LS("interval_hours", "unit hours", tier="thorough"), _LS("interval_day", "unit day", tier="thorough"),
+        _LS("interval_days", "unit days", tier="thorough"), _LS("interval_weeks", "unit weeks", tier="thorough"),
+        _LS("interval_month", "unit month", tier="thorough"), _LS("interval_months", "unit months", tier="thorough"),
+        _LS("interval_year", "unit year", tier="thorough"), _LS("interval_years", "unit years", tier="thorough"),
+        _LS("interval_junk_x", "junk 'x'", tier="thorough"),
+    ],
+)
